@@ -254,9 +254,9 @@ def _report(ctx, sig, case, detail_diffs, origin, shrunk_runs=None):
 
 def oracle(ctx, n_override=None):
     # (1) graph level: the D4 / D9 transaction histories on the real Workflow (E2 Impl)
-    tr = cg.replay(cg.D4_OPS)
+    tr = cg.replay(cg.D4_OPS, finalize=True)
     viol = cg.k_violators(tr[-1][3])
-    scr = cg.replay(cg.D4_SCRATCH)
+    scr = cg.replay(cg.D4_SCRATCH, finalize=True)
     ctx.case(("graph", "D4"), nontrivial=True)
     if viol or cg.step_state(tr[-1][3], "cat") != cg.step_state(scr[-1][3], "cat"):
         ctx.add_failure("oracle", "graph:K", co.SIG_D4,
